@@ -60,6 +60,7 @@ func init() {
 			{ID: "C06.R3b", Title: "a reflect.Value that can be the zero Value for ordinary data (x.Elem(), reflect.ValueOf(<interface>), MapIndex) is never used, locally or in the module function it is passed to (all implementations for interface calls), as receiver of a method that panics on the zero Value unless an IsValid test protects the use", Covers: "Path.Get and the assignment helpers return an error, not a panic, for nil pointers / nil interfaces inside the source value", Min: 10, Run: c06r3b},
 			{ID: "C15.R6", Title: "in the four bitmap key decoders every path from one bitmap row read to the next passes the `curBit == 0` test whose true branch exits", Covers: "a key longer than every field name (also through multi-byte \\u escapes) ends the match instead of indexing past the bitmap", Min: 8, Run: c15r6},
 			{ID: "C06.R5", Title: "every read at <cursor>+k (index, slice bound, char(p, cursor+k)), k >= 1, in the decoders and in compact.go/indent.go is protected by a dominating `cursor+j >= len` exit or an enclosing/short-circuit `cursor+j < len` test with j >= k, by readAtLeast, or by the NUL-sentinel idiom (the preceding byte was matched against a non-NUL constant)", Covers: "truncated literals and escapes give an error instead of an out-of-range panic or a stray read", Min: 25, Run: c06r5},
+			{ID: "C06.R6", Title: "no variable is type-asserted in the panicking single-value form to two different interface types within one decoder/encoder function", Covers: "UnmarshalContext/Unmarshal never panic on a destination that implements only one of the unmarshaler interfaces", Min: 2, Run: c06r6},
 			{ID: "C06.R4", Title: "no ssa.Panic instruction of the module (outside init) is in a function CHA-reachable from the decoding/utility entry points", Covers: "no explicit panic on any input", Min: 5, Run: c06r4},
 		},
 	})
@@ -106,6 +107,20 @@ func init() {
 			{ID: "C10.R4", Title: "typestate: after ReleaseRuntimeContext(ctx), ctx and every []byte obtained from a call that took ctx are stale; no stale use", Covers: "results are copied out before the pooled context can be handed to another goroutine", Min: 10, Run: c10r4},
 			{ID: "C10.R6", Title: "while a sync lock on a package-level mutex is held (must-analysis), no call is made whose callees (VTA call graph) lock the same mutex", Covers: "no self-deadlock in the race-enabled build", Configs: []string{"race"}, Min: 1, Run: c10r6},
 			{ID: "C10.R5", Title: "every access of OpcodeSet.QueryCache is at a point where a sync lock is held on all paths", Covers: "concurrent MarshalContext calls with different queries on one type", Min: 2, Run: c10r5},
+		},
+	})
+	core.Register(&core.Property{
+		ID:         "C11",
+		Decided:    "Decides that every field of the pooled contexts and options that can be read on an entry point's paths was written (or reset with the whole struct) by that entry point, that shared state overwritten after being saved is restored on every exit, that what the type caches store depends on the type only, that building programs does not modify the cached Code tree, and that results do not alias package-level slices; it does not decide equality of cold and warm results.",
+		NotCovered: "cold-versus-warm equality itself, contents of recycled Ptrs slots, sticky options of a Decoder/Encoder object, user callbacks with their own state.",
+		Rules: []*core.Rule{
+			{ID: "C11.R1", Title: "for each function that takes a context from a sync.Pool and each field of the pooled structs read on a path reachable from it (VTA): the field is assigned in the entry's prologue (entry and its static callees, two levels, interpreters excluded), reset with the whole struct, or only re-sliced to length 0", Covers: "options, contexts and buffers of earlier calls never decide a later result", Min: 60, Run: c11r1},
+			{ID: "C11.R2", Title: "for each `old := X.f; X.f = new; …; X.f = old` sequence: every path from the overwrite to a return passes a restoring assignment", Covers: "a compiled Path (and other shared handles) is unchanged after a failed call", Min: 2, Run: c11r2},
+			{ID: "C14.R2", Title: "the value stored in a type cache slot is the result of a compile call on the type argument only (shared with C14)", Covers: "same result on a cold and on a warm type cache", Configs: []string{"default", "race"}, Min: 8, Run: c14r2},
+			{ID: "C11.R4", Title: "ToOpcode/ToAnonymousOpcode/Filter/Kind methods of the Code tree never assign to a field of their receiver; compiled programs are not written at run time (C08.R8)", Covers: "building a filtered or escaped program does not change later programs", Min: 20, Run: c11r4},
+			{ID: "C08.R8", Title: "compiled programs are not written at run time (shared with C08)", Covers: "a cached program is the same for every later call", Min: 30, Run: c08r8},
+			{ID: "C11.R5", Title: "no element of the [][]byte returned by a DecodePath method originates from a package-level slice", Covers: "changing an earlier result never affects later results", Min: 10, Run: c11r5},
+			{ID: "C13.R5", Title: "entry points reset the pooled flags/options first (shared with C13)", Covers: "Colorize/Debug/indent/context options of an earlier call do not leak", Min: 20, Run: c13r5},
 		},
 	})
 	core.Register(&core.Property{
